@@ -44,6 +44,10 @@ pub enum PrefixOp {
     EditRevert { pick: usize, variant: u8 },
     FullDiagnostics,
     Locations,
+    /// Reach one submodule of the crate root through `module_submodules_ids` only (without the
+    /// crate-wide module walk, which interns every module's items in source order first) and
+    /// analyse it: 0 semantic diagnostics, 1 lowering diagnostics, 2 Sierra of its first function.
+    ViaSubmodules { pick: usize, kind: u8 },
 }
 
 #[derive(Clone, Debug, Serialize, Deserialize, PartialEq)]
@@ -362,6 +366,33 @@ fn run_prefix(sut: &mut Sut, prefix: &[PrefixOp], counters: &mut Counters) {
             PrefixOp::FullDiagnostics => {
                 let _ = dbx::diagnostics_of(&sut.db, &sut.main);
             }
+            PrefixOp::ViaSubmodules { pick, kind } => {
+                let db = &sut.db;
+                let ids = CrateInput::into_crate_ids(db, sut.main.clone());
+                let Some(c) = ids.first().copied() else { return };
+                let Ok(subs) = db.module_submodules_ids(cairo_lang_defs::ids::ModuleId::CrateRoot(c)) else { return };
+                if subs.is_empty() {
+                    return;
+                }
+                let m = cairo_lang_defs::ids::ModuleId::Submodule(subs[pick % subs.len()]);
+                match kind % 3 {
+                    0 => {
+                        let _ = db.module_semantic_diagnostics(m);
+                    }
+                    1 => {
+                        let _ = db.module_lowering_diagnostics(m);
+                    }
+                    _ => {
+                        if let Ok(fs) = db.module_free_functions_ids(m) {
+                            if let Some(f) = fs.first() {
+                                if let Some(cf) = cairo_lang_lowering::ids::ConcreteFunctionWithBodyId::from_no_generics_free(db, *f) {
+                                    let _ = db.function_with_body_sierra(cf);
+                                }
+                            }
+                        }
+                    }
+                }
+            }
             PrefixOp::Locations => {
                 let _ = dbx::locations_of(&sut.db, &sut.main);
             }
@@ -376,6 +407,7 @@ fn run_prefix(sut: &mut Sut, prefix: &[PrefixOp], counters: &mut Counters) {
                 PrefixOp::EditRevert { .. } => "edit_then_exact_revert",
                 PrefixOp::FullDiagnostics => "full_diagnostics",
                 PrefixOp::Locations => "locations",
+                PrefixOp::ViaSubmodules { .. } => "submodule_first_without_crate_walk",
             }
         ));
         if r.is_err() {
@@ -576,13 +608,18 @@ pub fn execute(project: &ProjectRef, plan: &Plan, counters: &mut Counters) -> Ru
         return RunOut { obs, raw_sig: 0, attr_sig: 0, tasks_with_queries: 0, tasks_run: 0, queries_executed: 0, sched_steps: 0 };
     }
     let text = String::from_utf8_lossy(&out.stdout);
-    let line = text.lines().rev().find(|l| l.starts_with("{\"c12-exec\"")).unwrap_or_else(|| {
+    let Some(line) = text.lines().rev().find(|l| l.starts_with("{\"c12-exec\"")) else {
+        // The child died without a result: a panic inside a simulated task (shuttle cannot contain
+        // those) or a crash. That is an observable of the run ("no output"), not a harness error.
         let p = simcore::verif_root().join(format!("sim/scratch/c12-exec-failed-{}.json", std::process::id()));
+        let _ = std::fs::create_dir_all(p.parent().unwrap());
         let _ = std::fs::write(&p, req.to_string());
         let err = String::from_utf8_lossy(&out.stderr);
-        let tail: Vec<&str> = err.lines().rev().take(12).collect();
-        harness_error(&format!("c12-exec produced no result (status {:?}); request saved to {p:?}; stderr tail: {:?}", out.status, tail))
-    });
+        let msg = err.lines().rev().find(|l| l.contains("panicked at") || l.contains("PANIC")).unwrap_or("").chars().take(160).collect::<String>();
+        let mut obs = Observables::new();
+        obs.insert("PANIC".into(), format!("run ended without a result (status {:?}) {msg}", out.status.code()));
+        return RunOut { obs, raw_sig: 0, attr_sig: 0, tasks_with_queries: 0, tasks_run: 0, queries_executed: 0, sched_steps: 0 };
+    };
     let v: Value = serde_json::from_str(line).unwrap_or_else(|e| harness_error(&format!("c12-exec output: {e}")));
     let c: BTreeMap<String, u64> = serde_json::from_value(v["counters"].clone()).unwrap_or_default();
     counters.merge(&Counters(c));
@@ -673,7 +710,8 @@ pub fn generate_plan(seed: u64, level2: bool) -> Plan {
     let n_prefix = if rng.chance(1, 4) { 0 } else { rng.below(if level2 { 6 } else { 24 }) };
     let mut prefix = vec![];
     for _ in 0..n_prefix {
-        prefix.push(match rng.below(12) {
+        prefix.push(match rng.below(14) {
+            12 | 13 => PrefixOp::ViaSubmodules { pick: rng.below(64), kind: rng.below(3) as u8 },
             0..=4 => PrefixOp::Partial { kind: rng.below(5) as u8, pick: rng.below(512), snapshot: rng.chance(1, 3) },
             5 => PrefixOp::CorelibModule { pick: rng.below(512), lowering: rng.chance(1, 3) },
             6 | 7 => PrefixOp::CompileSubset { picks: (0..1 + rng.below(4)).map(|_| rng.below(512)).collect() },
